@@ -138,7 +138,8 @@ class Scope(object):
   @property
   def free_vars(self):
     enclosing_scope = self.enclosing_scope
-    return enclosing_scope.read - enclosing_scope.bound
+    return enclosing_scope.read - (
+        enclosing_scope.bound - enclosing_scope.nonlocals)
 
   def copy_from(self, other):
     """Recursively copies the contents of this scope from another scope."""
